@@ -120,4 +120,31 @@ def tokOf : EOp → Option Term.Tok
         else none
   | _ => none
 
+/-! ### extension (round 2): long parameter lists, cursor visibility and shape
+
+The functions with ONE numeric parameter read only the first parameter (`ps(params)`); further
+parameters are ignored, as DEC STD 070 and xterm do. `firstOnly` keeps that first parameter.
+Outside, still: a first parameter with colon sub-parameters (xterm accepts `:` in SGR only; the
+emulator takes the main value — terminal specific); CUP/HVP and DECSTBM with more than two
+parameters (xterm uses the first two, the emulator ignores the sequence: noted in notes/C06.md);
+`CSI 5-parameter T` (xterm: mouse-highlight tracking, ignored by both). -/
+
+def firstOnly (pm : List Param) : List Param :=
+  match pm with
+  | [] => []
+  | p :: _ => [(p.1, p.2)]
+
+/-- Final bytes of the one-parameter functions of the vocabulary. -/
+def onePs : List Nat := [64, 65, 66, 67, 68, 69, 70, 71, 74, 75, 76, 77, 80, 83, 84, 88, 96, 100]
+
+/-- `tokOf`, extended: any number of parameters for the one-parameter functions; `CSI ? 25 h/l`;
+    `CSI n SP q` (n ≤ 65535 — the emulator clamps a larger value). -/
+def tokOfX : EOp → Option Term.Tok
+  | .csi [63, 104] [(25, [])] => some (.showCursor true)
+  | .csi [63, 108] [(25, [])] => some (.showCursor false)
+  | .csi [32, 113] [(n, [])] => if 0 ≤ n ∧ n ≤ 65535 then some (.cursorShape n.toNat) else none
+  | .csi [f] pm =>
+    if f ∈ onePs ∧ (f = 84 → pm.length ≠ 5) then tokOf (.csi [f] (firstOnly pm)) else tokOf (.csi [f] pm)
+  | op => tokOf op
+
 end VaxisModel.Model.EmuAbs
